@@ -1571,12 +1571,12 @@ def d6(ctx: Ctx):
                         line=a_.lineno,
                         props=["C17", "C18", "C19"],
                     )
-            # the same accounting written per run: `for _ in range(n): write ...` followed by `counter -= n` in the while body.
+            # the same accounting written per run: `for _ in range(n): write ...` and `counter -= n` (before or after it) in the while body.
             # Nothing can stop the repeat at the end of the picture in this form: it is the unguarded repeat loop.
             for k_, st in enumerate(wl.body):
                 # (counting down to zero or up to the total: the same accounting)
                 if isinstance(st, ast.AugAssign) and isinstance(st.op, (ast.Sub, ast.Add)) and isinstance(st.target, ast.Name) and isinstance(st.value, ast.Name):
-                    reps = [f_ for f_ in wl.body[:k_] if isinstance(f_, ast.For) and isinstance(f_.iter, ast.Call) and call_name(f_.iter) == "range" and len(f_.iter.args) == 1 and isinstance(f_.iter.args[0], ast.Name) and f_.iter.args[0].id == st.value.id and any(isinstance(c, ast.Call) and call_name(c) not in ("range", "ord", "iotostr") for c in ast.walk(f_))]
+                    reps = [f_ for f_ in wl.body if isinstance(f_, ast.For) and isinstance(f_.iter, ast.Call) and call_name(f_.iter) == "range" and len(f_.iter.args) == 1 and isinstance(f_.iter.args[0], ast.Name) and f_.iter.args[0].id == st.value.id and any(isinstance(c, ast.Call) and call_name(c) not in ("range", "ord", "iotostr") for c in ast.walk(f_))]
                     if reps and st.target.id in names_loaded(wl.test) and not any(_decrement_target(x) == st.target.id for f_ in reps for x in ast.walk(f_)):
                         found += 1
                         clamped = any(isinstance(a_, ast.Assign) and isinstance(a_.targets[0], ast.Name) and a_.targets[0].id == st.value.id and isinstance(a_.value, ast.Call) and call_name(a_.value) == "min" and st.target.id in names_loaded(a_.value) for a_ in wl.body[:k_])
@@ -1660,7 +1660,13 @@ def d7(ctx: Ctx):
         gates = 0
         for n in ast.walk(fn):
             # (the test may be named first: `bad = ord(head[0]) != 0; if bad:`)
-            if isinstance(n, ast.If) and isinstance(resolve_alias(fn, n.test), ast.Compare):
+            if not isinstance(n, ast.If):
+                continue
+            t_ = resolve_alias(fn, n.test)
+            # (`if packed == 0:` may be spelled `if not packed:`: a truth test of a value that was read from the stream)
+            read_locals = {a.targets[0].id for a in ast.walk(fn) if isinstance(a, ast.Assign) and len(a.targets) == 1 and isinstance(a.targets[0], ast.Name) and any(isinstance(c_, ast.Call) and call_name(c_) == "read" for c_ in ast.walk(a.value))}
+            truth_of_read = isinstance(t_, (ast.UnaryOp, ast.Name)) and bool(names_loaded(t_) & read_locals) and not any(isinstance(c_, ast.Call) for c_ in ast.walk(t_))
+            if isinstance(n, ast.If) and (isinstance(t_, ast.Compare) or truth_of_read):
                 refuses = any(isinstance(x, ast.Raise) or (isinstance(x, ast.Call) and call_name(x) == "exit") or (isinstance(x, ast.Return) and isinstance(x.value, ast.Constant) and x.value.value is False) for b in n.body for x in ast.walk(b))
                 if refuses:
                     gates += 1
@@ -2236,12 +2242,38 @@ def d9(ctx: Ctx):
     ret = next((n for n in ast.walk(gb) if isinstance(n, ast.Return)), None)
     pn = [a.arg for a in gb.args.args]
     okg = None
+
+    class _Ret(Exception):
+        def __init__(self, v):
+            self.v = v
+
+    def _run_body(stmts, env):
+        """Straight-line integer code with `if` / `return`: evaluated on values (the function is a pure expression of its arguments)."""
+        for st_ in stmts:
+            if isinstance(st_, ast.Expr) and isinstance(st_.value, ast.Constant):
+                continue
+            if isinstance(st_, ast.Assign) and len(st_.targets) == 1 and isinstance(st_.targets[0], ast.Name):
+                env[st_.targets[0].id] = int_eval(st_.value, env)
+            elif isinstance(st_, ast.If):
+                _run_body(st_.body if int_eval(st_.test, env) else st_.orelse, env)
+            elif isinstance(st_, ast.Return) and st_.value is not None:
+                raise _Ret(int_eval(st_.value, env))
+            else:
+                raise IntEvalError(f"statement {type(st_).__name__}")
+
+    def _call_gb(c_, k_):
+        try:
+            _run_body(gb.body, {pn[0]: c_, pn[1]: k_})
+        except _Ret as r_:
+            return int(r_.v)
+        raise IntEvalError("no return")
+
     if ret is not None and ret.value is not None and len(pn) == 2:
         try:
-            okg = all(int(int_eval(ret.value, {pn[0]: c_, pn[1]: k_})) == ((c_ >> k_) & 1) for c_ in (0, 1, 2, 0x55, 0xAA, 0x80, 0xFF, 0x1234) for k_ in range(8))
+            okg = all(_call_gb(c_, k_) == ((c_ >> k_) & 1) for c_ in (0, 1, 2, 0x55, 0xAA, 0x80, 0xFF, 0x1234) for k_ in range(8))
         except IntEvalError:
             okg = None
-    ctx.idiom("util.getbit", okg is not None, bool(okg), "" if okg else f"getbit returns `{unparse(ret.value) if ret else None}`, which is not bit ii of c", file="coco/util.py", line=gb.lineno, props=["C16", "C18"])
+    ctx.idiom("util.getbit", okg is not None, bool(okg), "" if okg else f"getbit (`{unparse(ret.value) if ret else None}` ...) does not return bit ii of c", file="coco/util.py", line=gb.lineno, props=["C16", "C18"])
 
 
 def _dests(st: ast.FunctionDef) -> Set[str]:
